@@ -65,6 +65,15 @@ def cmd_elements(e, ctx):
     return out
 
 
+def cmd_element_vecs(e, ctx):
+    """like cmd_elements but the byte-vector values themselves (they may be structured text without byte cells)"""
+    ctx = un(ctx)
+    cmd = e.run_func(e.find_fn('CmdCtx', 'get_cmd'), [Ref(Cell(ctx))])
+    n = e.run_func(e.find_fn('Command', 'get_command_len'), [cmd])
+    if n.variant == 0: return None
+    return [deref_vec(e.run_func(e.find_fn('Command', 'get_command_element'), [cmd, i]).f[0].v) for i in range(n.f[0].v)]
+
+
 def as_bytes(vals):
     """concrete bytes of a list of byte values, or None if any is symbolic"""
     if any(is_sym(v) for v in vals): return None
